@@ -75,7 +75,10 @@ where
 
     fn call(&mut self, req: Req) -> Self::Future {
         // Clone the service for the spawned task
-        let mut service = self.inner.clone();
+        // `poll_ready` was driven on `self.inner`: that instance takes the call, a fresh
+        // clone is left behind for the next request (Tower readiness contract)
+        let clone = self.inner.clone();
+        let mut service = std::mem::replace(&mut self.inner, clone);
         let (tx, rx) = oneshot::channel();
 
         // Spawn the request processing on the executor
